@@ -407,7 +407,10 @@ def stepOpen (s : S) : Op → S × Int
   | .setInstrument valid =>
       if s.1.haveWritten || !valid then (s, 0) else (allocIfNull (.owner .instrument) s, 1)
   | .setChannelMap valid =>
-      if s.1.haveWritten || !valid then (s, 0) else (replace (.owner .channelMap) s, -2)
+      -- `valid`: the call passes its guards AND the container takes the map (Sf.ChmapVerdict.containerAccepts).  A map the container
+      -- refuses is allocated and freed again inside the call, the old block (if any) stays where it was: the ledger does not move
+      -- (since the repair of KF-C09-CHMAP-REFUSED-KEPT; before it a refused map stayed under the owner when there was none).
+      if s.1.haveWritten || !valid then (s, 0) else (replace (.owner .channelMap) s, 1)
   | .setChunk valid =>
       let h := s.1
       if !valid || h.haveWritten || !h.setChunkHook then (s, 1)
